@@ -32,11 +32,13 @@ pub fn check(tier: Tier) -> Check {
     // identifier flavour: the counters start next to a boundary of their encodings (DESIGN 4)
     parts.push(Part::new("C05/ops", json!({"depth": tier.pick(5, 6), "ids": [32766, 126]}), 0, tier.pick(40, 600)));
     parts.push(Part::new("C05/ops", json!({"depth": tier.pick(4, 5), "ids": [254, 16382]}), 1, tier.pick(40, 600)));
+    // two operations outstanding whose packet identifiers differ in exactly one bit
+    parts.push(Part::new("C05/bits", json!({}), 0, 120));
     Check {
         also_rel: false,
         property: "C05",
         level: "model_checking",
-        rule: "all event sequences (operation starts, conformant acknowledgements in every order with distinguishing content, delayed / spurious polls as deviations) up to the stated depth and deviation bound; plus 9 deterministic runs with 600 operations of all kinds outstanding at once (packet identifiers spanning several multiples of 256 and the wrap) acknowledged in three permutations; non-trivial = an execution in which at least one acknowledgement completed an operation".into(),
+        rule: "all event sequences (operation starts, conformant acknowledgements in every order with distinguishing content, delayed / spurious polls as deviations) up to the stated depth and deviation bound; plus 9 deterministic runs with 600 operations of all kinds outstanding at once (packet identifiers spanning several multiples of 256 and the wrap) acknowledged in three permutations; plus every pair of operation kinds outstanding with packet identifiers that differ in exactly one bit (bit 0..15, two base values), acknowledged in both orders; non-trivial = an execution in which at least one acknowledgement completed an operation".into(),
         assumptions: vec![
             "broker events are conformant (acknowledgements only for outstanding identifiers)".into(),
             "futures-channel is in the trusted base".into(),
@@ -178,7 +180,67 @@ fn wide(name: String, params: Value) -> Scenario {
     })
 }
 
+/// Two operations outstanding whose packet identifiers differ in exactly one bit (every bit, two base
+/// values, five kind pairs, both acknowledgement orders): the correlation key must keep all 16 bits.
+fn bits(name: String, params: Value) -> Scenario {
+    Box::new(move |chz, ex| {
+        // k == 16: the very same identifier value for two operations that expect different
+        // acknowledgement types (possible after a wrap; here the counter is rewound by the hook) -
+        // each must still complete only on the acknowledgement of its own type
+        let k = chz.choose(17) as u16;
+        let base = [1u16, 0x2aaa][chz.choose(2)];
+        let other = if k == 16 { base } else { base ^ (1 << k) };
+        let pair = if k == 16 { 2 + chz.choose(4) } else { chz.choose(5) };
+        let first_b = chz.choose(2) == 1;
+        let fail = chz.choose(2) == 1;
+        let mut sys = Sys::new("C05", &name, chz);
+        sys.params = params.clone();
+        sys.m.check_client_acks = false;
+        sys.bring_up(vec![]);
+        if other == 0 {
+            return sys.report(ex, &[]);
+        }
+        let sp = op_specs();
+        let (a, b) = match pair {
+            0 => (sp[0].clone(), sp[0].clone()),
+            1 => (sp[1].clone(), sp[1].clone()),
+            2 => (sp[2].clone(), sp[3].clone()),
+            3 if k != 16 => (sp[0].clone(), sp[1].clone()),
+            3 => (sp[0].clone(), sp[2].clone()),
+            4 if k != 16 => (sp[2].clone(), sp[2].clone()),
+            4 => (sp[3].clone(), sp[0].clone()),
+            _ => (sp[1].clone(), sp[3].clone()),
+        };
+        sys.m.allow_pid_reuse = k == 16;
+        sys.w.handle().verif_set_ids(base, 1);
+        sys.events.push(format!("PresetPacketId({})", base));
+        sys.apply(Ev::Start(a));
+        sys.w.handle().verif_set_ids(other, 2);
+        sys.events.push(format!("PresetPacketId({})", other));
+        sys.apply(Ev::Start(b));
+        let order = if first_b { [1usize, 0] } else { [0usize, 1] };
+        // every phase of both handshakes, the chosen operation first in each round
+        for round in 0..2 {
+            for &i in &order {
+                if sys.dead {
+                    break;
+                }
+                let reason = if fail && round == 0 && i == 1 { 0x80 } else { 0 };
+                let tag = format!("r{}", i);
+                if let Some(p) = sys.ack_for(i, reason, &tag).or_else(|| sys.ack_for(i, 0, &tag)) {
+                    sys.apply(Ev::Deliver(p));
+                }
+            }
+        }
+        sys.finish();
+        sys.report(ex, &["puback", "pubcomp", "suback", "unsuback", "pubrec-fail"]);
+    })
+}
+
 pub fn scenario(name: &str, params: &Value) -> Scenario {
+    if name == "C05/bits" {
+        return bits(name.to_string(), params.clone());
+    }
     if name == "C05/wide" {
         return wide(name.to_string(), params.clone());
     }
